@@ -30,7 +30,7 @@ func genAmount(rt *rapid.T, label string) *big.Int {
 func TestC03OnClient(t *testing.T) {
 	rec := vt.For("C03")
 	rec.Rule("manager level, connect-time check: generated (driver memory/badger, client linked to a wallet or on trial, credit, deposit layered on top of the store like the contract proxy does, minimum incl. unset, host flag); OnClient is called 1-3 times in a row; oracle: refused iff client and credit+deposit < minimum, the error reports exactly credit+deposit and the minimum, hosts and an unset minimum never refuse, every call gives the same answer, and the stored balance (credit, deposit as layered) is the same before and after - a check is not a write; non-trivial = a minimum is set and the client has a deposit; distinct by (driver, linked, signs, outcome)")
-	rapid.Check(t, func(rt *rapid.T) {
+	check(t, func(rt *rapid.T) {
 		driver := rapid.SampledFrom([]string{"memory", "memory", "badger"}).Draw(rt, "driver")
 		var st store.Store
 		if driver == "memory" {
